@@ -113,7 +113,10 @@ Case decode(const pbt::Tape& t) {
     const LD sig78 = isF ? std::pow((LD)1.1920929e-07L, (LD)0.875L) : std::pow((LD)2.220446049250313e-16L, (LD)0.875L);
     const LD defThr = std::max(m, n) * sig78;
     // float + default rcond is only 15x above rounding noise: use the default only for double, or for float when nothing is small
-    if (isF && c.rankClass != 0) c.useDefaultRcond = false;
+    // deficient float matrices are judged against the default threshold too (half of them), but only when the singular
+    // values of the float-ROUNDED matrix stay >= 5x clear of it (checked below, after construction); class 3 keeps an explicit rcond
+    bool floatDefaultGate = false;
+    if (isF && c.rankClass != 0) { if (c.useDefaultRcond && (c.rankClass == 1 || c.rankClass == 2) && (c.fac == QTZ || c.fac == SVD) && c.mode == 0 && ((seed >> 17) & 1)) floatDefaultGate = true; else c.useDefaultRcond = false; }
     c.rcond = c.useDefaultRcond ? defThr : std::pow((LD)10, (LD)-rcExp);
     const int rawTrickClass = c.rankClass;   // raw mode: 0 = no structural singularity
     if (c.fac != QTZ && c.fac != SVD) { c.rankClass = 0; }
@@ -208,6 +211,14 @@ Case decode(const pbt::Tape& t) {
         c.A = dense::scaled(c.A, CL(scale)); for (auto& s : c.sigma) s *= scale;
     }
     if (!cplx) for (auto& x : c.A.a) x = CL(x.real(), 0);
+    if (floatDefaultGate && c.rank >= 0 && c.rank < k) {   // what the library actually receives: A rounded to float
+        DM Ar = c.A; for (auto& x : Ar.a) x = CL((LD)(float)x.real(), cplx ? (LD)(float)x.imag() : 0);
+        DM Ur, Vr; std::vector<LD> sr; dense::jacobiSVD(Ar, Ur, sr, Vr); std::sort(sr.begin(), sr.end(), [](LD a, LD b) { return a > b; });
+        bool clear = !sr.empty() && sr[0] > 0;
+        for (int i = 0; clear && i < (int)sr.size(); ++i) { if (i < c.rank ? !(sr[i] >= 5 * c.rcond * sr[0]) : !(sr[i] <= c.rcond * sr[0] / 5)) clear = false; }
+        if (c.rank == 0) clear = true;      // the zero matrix rounds to itself
+        if (!clear) c.rank = -1;
+    }
     if (c.mode == 1) {   // expected rank of a raw matrix: count against the threshold, only if well separated
         int r = 0; bool clear = true; LD s1 = c.sigma.empty() ? 0 : c.sigma[0];
         const LD thr = c.fac == LU ? (LD)1e-9L : c.rcond;     // LU: "regular" means sigma_min > 1e-6 sigma_1 (else undecided)
@@ -377,7 +388,7 @@ template <class T> void runQTZ(const Case& c, pbt::Ctx& ctx) {
     FactorQTZ held; if (c.copyObj) { held = q; q = FactorQTZ(); }
     FactorQTZ& f = c.copyObj ? held : q;
     Ref r = makeRef(c, A, B, 200);
-    if (c.rank < 0) { ctx.label("QTZ:rank-undecidable(raw,near-threshold)"); return; }
+    if (c.rank < 0) { ctx.label("QTZ:rank-undecidable(near-threshold)"); return; }
     int rk = f.getRank();
     if (!ctx.check(rk == c.rank, "FactorQTZ::getRank() = " + std::to_string(rk) + ", constructed rank " + std::to_string(c.rank) + " (rcond " + num(c.rcond) + ")")) return;
     // reciprocal condition estimate at this rank: within 1e3 of sigma_r/sigma_1
@@ -443,7 +454,7 @@ template <class T> void runSVD(const Case& c, pbt::Ctx& ctx) {
       LD e = dense::normF(dense::sub(dense::mul(US, Rd), r.Aq)), bound = 100 * std::max(m, n) * eps * std::max(an, s1);
       if (!ctx.check(e <= bound, "|U S V' - A|_F = " + num(e) + " > " + num(bound))) return;
       for (int i = 0; i < k; ++i) if (!ctx.check(std::fabs((LD)sv[i] - c.sigma[i]) <= 100 * std::max(m, n) * eps * s1, "singular value (vector path) " + std::to_string(i) + " off")) return; }
-    if (c.rank < 0) { ctx.label("SVD:rank-undecidable(raw,near-threshold)"); return; }
+    if (c.rank < 0) { ctx.label("SVD:rank-undecidable(near-threshold)"); return; }
     DM X; solveBoth<T>(c, f, B, X);
     if (c.rank > 0 && !compareSolution(c, ctx, r, X, "FactorSVD::solve")) return;
     if (c.rank == 0 && !(X.m == 0 && X.n == 0) && !compareSolution(c, ctx, r, X, "FactorSVD::solve (zero matrix)")) return;
@@ -538,7 +549,7 @@ void property(const pbt::Tape& t, pbt::Ctx& ctx) {
     ctx.label(std::string(facName[c.fac]) + "/" + typeName[c.type]);
     ctx.label(std::string("input:") + adaptName[c.adaptor]);
     ctx.label(c.m == c.n ? "shape:square" : c.m > c.n ? "shape:tall" : "shape:wide");
-    if (c.fac == QTZ || c.fac == SVD) { static const char* rc[] = {"rank:full", "rank:exact-deficient", "rank:small-below-rcond", "rank:small-above-rcond"}; ctx.label(rc[c.rankClass]); ctx.label(c.useDefaultRcond ? "rcond:default" : "rcond:explicit"); if (c.rank == 0 && c.k > 0) ctx.label("rank:zero-matrix"); }
+    if (c.fac == QTZ || c.fac == SVD) { static const char* rc[] = {"rank:full", "rank:exact-deficient", "rank:small-below-rcond", "rank:small-above-rcond"}; ctx.label(rc[c.rankClass]); ctx.label(c.useDefaultRcond ? "rcond:default" : "rcond:explicit"); if (c.useDefaultRcond && (c.type == 1 || c.type == 3) && c.rankClass != 0) ctx.label(c.rank >= 0 ? "float-default-rcond-deficient" : "float-default-rcond-deficient:undecidable"); if (c.rank == 0 && c.k > 0) ctx.label("rank:zero-matrix"); }
     if (c.mode == 1 && c.fac != EIG && c.fac != LLT) ctx.label("mode:raw-integers");
     if (c.fac == EIG) { static const char* em[] = {"eig:hermitian", "eig:schur-general", "eig:raw"}; ctx.label(em[c.eigMode]); }
     if (c.refactor && c.fac != EIG) ctx.label("order:refactor"); if (c.copyObj) ctx.label("order:copy");
@@ -619,7 +630,7 @@ pbt::Config config() {
         ctx.desc << "Eigen(complex<double> 2x2).getAllEigenValuesAndVectors with a 3x3 output matrix: result is " << vecs.nrow() << "x" << vecs.ncol() << "\n";
         ctx.check(vecs.nrow() == 2 && vecs.ncol() == 2, "the complex<double> overload does not size the eigenvector matrix (it stays 3x3; an empty one is written out of bounds: segfault)");
     }});
-    c.requiredLabels = {"LU/double", "LU/complex<float>", "LLT/float", "LLT/complex<double>", "QTZ/double", "QTZ/float", "QTZ/complex<double>", "SVD/double", "SVD/complex<float>", "Eigen/double", "Eigen/complex<double>",
+    c.requiredLabels = {"float-default-rcond-deficient", "LU/double", "LU/complex<float>", "LLT/float", "LLT/complex<double>", "QTZ/double", "QTZ/float", "QTZ/complex<double>", "SVD/double", "SVD/complex<float>", "Eigen/double", "Eigen/complex<double>",
                         "shape:tall", "shape:wide", "rank:exact-deficient", "rank:small-below-rcond", "rank:small-above-rcond", "rank:zero-matrix", "rcond:default", "rcond:explicit", "mode:raw-integers", "LU:structurally-singular",
                         "input:negator", "input:conjugate", "input:negator<conjugate>", "order:refactor", "order:copy", "rhs:matrix", "eig:hermitian", "eig:schur-general", "eig:raw", "size:21-40", "SVD:size0"};
     c.assumptions = {"long double (64-bit mantissa) products and the construction U diag(sigma) V^H are exact enough to judge float/double results", "rightVectors of FactorSVD holds the right singular vectors as rows (A = U S rightVectors), as Simbody's own caller CableSpan.cpp uses it", "perturbation bounds: |x - x*| <= delta (kappa |x*| + kappa^2 |r|/sigma_1 + |b|/sigma_r), delta = C max(m,n) eps + 4 sigma_{r+1}/sigma_1"};
